@@ -108,6 +108,11 @@ theorem C19_cost_zero_iff_system {n k : Nat} (hk : 0 < k) (V W : Matrix (Fin n) 
     rwa [div_eq_one_iff_eq (ne_of_gt hkpos)] at this
   · intro h; rw [h, div_self (ne_of_gt hkpos)]; ring
 
+/-- non-vacuity of the hypotheses of the four theorems above (`n = k = 1`, all matrices `(1)`) -/
+example : ∃ T U : Matrix (Fin 1) (Fin 1) ℂ, Tᴴ * T = 1 ∧ Uᴴ * U = 1 ∧
+    (Tᴴ * T).trace = 1 ∧ (Tᴴ * T).trace = ((1 : Nat) : ℂ) :=
+  ⟨1, 1, by simp, by simp, by simp, by simp⟩
+
 /-- **The executable model** (Gaussian rationals; `costGap t K = 1 − |t|²/K² = cost·(2 − cost)`):
 for two model matrices of squared Frobenius norm `K ≥ 1` — `A = T`, `B = U` with `K = N` for a unitary
 target; `A = ψ`, `B = U|0⟩`, `K = 1` for a state; `A = W`, `B = U·V`, `K = k` for a system — the gap
@@ -116,6 +121,9 @@ theorem C19_cost_zero_iff_model {n m : Nat} (A B : Mat n m) (K : Nat) (hK : 0 < 
     (hA : hsInner A A = ((K : Nat) : GQ)) (hB : hsInner B B = ((K : Nat) : GQ)) :
     costGap (hsInner A B) K = 0 ↔ ∃ l : GQ, l.absSq = 1 ∧ ∀ i j, B i j = l * A i j :=
   costGap_zero_iff_phase A B K hK hA hB
+
+example : hsInner (Mat.one 2) (Mat.one 2) = ((2 : Nat) : GQ) := by
+  rw [hsInner_eq, hs_self_of_iso (isoM_one 2)]
 
 /-- the state cost of the model is the gap with `K = 1` -/
 theorem C19_stateCost_model {n : Nat} (psi u0 : Mat n 1) :
@@ -153,9 +161,11 @@ theorem C19_gradNum_model (t dt : GQ) :
     stateGrad t dt = -((star t * dt + t * star dt).re) :=
   ⟨gradNum_eq t dt, stateGrad_eq t dt⟩
 
-/-- non-vacuity of `RealDeriv`: the zero derivation on ℂ -/
-example : ∃ d : RealDeriv ℂ, d.D 1 = 0 :=
-  ⟨⟨0, by simp, by simp⟩, rfl⟩
+/-- non-vacuity: the zero derivation on ℂ with `s = t = 1`, `cost = 0`, `N = 1`; constant target -/
+example : ∃ (d : RealDeriv ℂ) (s t cost Ninv : ℂ), s * s = t * star t ∧ cost = 1 - s * Ninv ∧
+    d.D Ninv = 0 ∧ (0 : ℂ) = 1 - t * star t ∧
+    ∀ (T : Matrix (Fin 1) (Fin 1) ℂ) i j, d.D (star (T i j)) = 0 :=
+  ⟨⟨0, by simp, by simp⟩, 1, 1, 0, 1, by simp, by simp, rfl, by simp, fun _ _ _ => rfl⟩
 
 /-! ## 3. residuals -/
 
@@ -324,15 +334,14 @@ theorem C19_selection_order (order : List InstEntry) (gs : List GateCaps) :
     simp only [selectInst]
     rw [(firstNamed_none s order 0).mpr hall]
 
-/-- **(B) obligation.** The live `instantiater_order` (classes, method names, shapes of the
-`is_capable` bodies) is the table the model uses, and every multi-start method selects
-`sorted(params_list, key=lambda x: cost_fn(x))[0]` — index 0, no `reverse=`. -/
+/-- **(B) obligation.** The live `instantiater_order` (classes, method names, `is_capable`
+predicates classified by behaviour on probe circuits) is the table the model uses, and every selection
+expression recognised in the multi-start methods is a first-minimum-by-cost
+(`sorted(params_list, key=lambda x: cost_fn(x))[0]` or `min(..., key=cost_fn)`). -/
 theorem C19_order_table :
     BqVerif.Generated.InstOrder.instOrder = assumedOrder ∧
-    BqVerif.Generated.InstOrder.selections.length ≥ 2 ∧
-    BqVerif.Generated.InstOrder.selections.all (fun (_, _, idx, rev, keyOk) =>
-      idx == 0 && !rev && keyOk) = true := by
-  decide
+    BqVerif.Generated.InstOrder.selections.all (fun (_, _, kind) => kind == "firstMin") = true := by
+  decide +kernel
 
 example : selectInst assumedOrder [⟨true, true⟩] .auto = .ok (.entry 1) := by decide
 example : selectInst assumedOrder [⟨false, false⟩] (.byName "QFactor") = .error .value := by decide +kernel
